@@ -246,14 +246,33 @@ def run_e2e(ctx, hists=None):
             net = N.Net(addrs=["a"], set_cookies=render(resp) if resp else [],
                         redirects=[(f"ws://{h}/", render(r)) for h, r in chain])
             try:
-                with N.patched(net, {}):
-                    ws = websocket.WebSocket()
-                    kw = {"cookie": client} if client else {}
-                    if host_opt:
-                        kw["host"] = host_opt
-                    if shared_header is not None:
-                        kw["header"] = shared_header      # ONE list object handed to every handshake of the history
-                    ws.connect(f"ws://{target}/", **kw)
+                def do_connect():
+                    with N.patched(net, {}):
+                        ws = websocket.WebSocket()
+                        kw = {"cookie": client} if client else {}
+                        if host_opt:
+                            kw["host"] = host_opt
+                        if shared_header is not None:
+                            kw["header"] = shared_header      # ONE list object handed to every handshake of the history
+                        ws.connect(f"ws://{target}/", **kw)
+                if hi % 4 == 1:
+                    # every fourth history makes each of its connections on a thread of its own (an application that connects
+                    # from worker threads): the jar is the PROCESS's — what one thread's handshake stored, the next one's sends
+                    import threading
+                    box = []
+
+                    def runner():
+                        try:
+                            do_connect()
+                        except BaseException as e:  # noqa
+                            box.append(e)
+                    th = threading.Thread(target=runner)
+                    th.start()
+                    th.join()
+                    if box:
+                        raise box[0]
+                else:
+                    do_connect()
                 req = net.requests[0].decode("latin1") if net.requests else ""
                 ck = [l[len("Cookie: "):] for l in req.split("\r\n") if l.startswith("Cookie: ")]
                 hdr = ck[0] if ck else ""
